@@ -8,7 +8,7 @@ ASSUMPTIONS = [
     "integer-coded tasks are run only for the (optimizer, encoding) pairs of data/baseline_pairs.json (pairs that run at all today; the rest is C06's business)",
     "process-mode runs are judged on their results only (worker-side _init_agent events are not observable without source hooks)",
 ]
-MODULES = ["PvModel.Props.C01", "PvModel.Accept", "PvModel.Props.T01", "PvModel.Props.T05", "PvModel.Props.R13", "PvModel.Props.R02", "PvModel.Props.T13", "PvModel.Props.T14", "PvModel.Props.R14"]
+MODULES = ["PvModel.Props.C01", "PvModel.Accept", "PvModel.Props.T01", "PvModel.Props.T05", "PvModel.Props.R13", "PvModel.Props.R02", "PvModel.Props.T13", "PvModel.Props.T14", "PvModel.Props.R14", "PvModel.Props.R11"]
 
 
 def run(ctx):
@@ -21,7 +21,7 @@ def run(ctx):
                         modes=("serial", "serial", "serial", "thread") if not ctx.thorough else ("serial", "serial", "thread", "process"),
                         max_cycles_choices=(1, 2, 3, 5), pop_scales=(1, 1, 1.5, 2), multi=True)
     ctx.rule("all exported optimizers × generated tasks (continuous: symmetric, asymmetric, zero-touching, one-sided, tiny 1e-9, huge 1e9, scalar variables; multi-objective; "
-             "discrete / discrete-multi / binary / mixed / permutation for the pairs that run today) × objectives × min/max × cycle budgets 1..5 × population 1×/1.5×/2× × seeds × serial/thread(/process); a sixth of the continuous runs on an instance that has just solved a task over a disjoint space; an eighth of the continuous tasks are derived (model_copy(update=variables)) from an already used, wider task; "
+             "discrete / discrete-multi / binary / mixed / permutation for the pairs that run today) × objectives × min/max × cycle budgets 1..5 × population 1×/1.5×/2× × seeds × serial/thread(/process), plus every optimizer once (thrice) under a process pool; a sixth of the continuous runs on an instance that has just solved a task over a disjoint space; an eighth of the continuous tasks are derived (model_copy(update=variables)) from an already used, wider task; "
              "every agent of every generation + best_solution is judged by the Lean membership predicate; a case = one run; non-trivial = the run returned a result with ≥ 2 generations; distinct by job")
     # tasks derived from an already used task (same kinds and sizes, narrower / shifted bounds): a multi-step history
     for j in ctx.rng.sample(js, len(js) // 8):
@@ -37,6 +37,12 @@ def run(ctx):
             w = [ub - lb for lb, ub in zip(sp["lbs"], sp["ubs"])]
             j["warmup"] = {"specs": [{"k": "contMulti", "lbs": [ub + 2 * d for ub, d in zip(sp["ubs"], w)], "ubs": [ub + 3 * d for ub, d in zip(sp["ubs"], w)]}]}
             j["kind"] = j["kind"] + "+reused-instance"
+    # every optimizer once under a pool of processes (a branch of its own in the shared combinators, and in any algorithm that pools by itself), on a task with
+    # integer-coded coordinates where the pair runs today, otherwise on a narrow continuous box where proposals leave the space all the time
+    pj = jobs.make_jobs(ctx.rng, names, ["mixed", "disc", "cont-tiny"], 1 if not ctx.thorough else 3, modes=("process",), max_cycles_choices=(2, 3), trace_events=False)
+    for j in pj:
+        j["kind"] = j["kind"] + "+process-pool"
+    js += pj
     results = pmap(trace.run_traced, js)
     judge(ctx, results, ["C01"])
 
